@@ -109,3 +109,16 @@ REG.add(Contract(f"{PP}._unify", module=M_DP, kind="method", view="string",
                      "forall(Str, lambda k: (k in unified_dependencies) == exists(Str, lambda d: ((d, dependencies[d]) in seen) and k == resolved(all_aliases, d)))",
                      "forall(Str, Str, lambda k, x: implies(k in unified_dependencies, (x in unified_dependencies[k]) == exists(Str, Str, lambda d, e: ((d, dependencies[d]) in seen) and resolved(all_aliases, d) == k and (e in dependencies[d]) and x == resolved(all_aliases, e))))"])},
                  properties=["C06"]))
+
+# ---------------------------------------------------------------- DependencyToRuleConverter._generate_rule (C07): the rule generated for one component with arrows
+M_D2R = "pytestarch.diagram_extension.dependency_to_rule_converter"
+vals.declare_obj("DependencyToRuleConverter", dict(_should_only_rule="Bool"))
+D2R = "DependencyToRuleConverter"
+REG.add(Contract(f"{D2R}._generate_rule", module=M_D2R, kind="method", params=dict(self=D2R, importer="Node", importees="Set[Node]"), returns="Rule",
+                 # C07: 'a imports exactly its drawn targets': subject a (by name), verb should_only in the default mode / should otherwise, direction import, objects = the drawn targets
+                 ensures=["forall(Filter, lambda f: (f in unwrap(result._configuration.modules_to_check)) == (f == mk_filter_name(importer)))",
+                          "not is_none(result._configuration.modules_to_check)", "not is_none(result._configuration.modules_to_check_against)",
+                          "forall(Filter, lambda f: (f in unwrap(result._configuration.modules_to_check_against)) == exists(Node, lambda t: (t in importees) and f == mk_filter_name(t)))",
+                          "result._configuration.should_only == self._should_only_rule", "result._configuration.should == (not self._should_only_rule)", "not result._configuration.should_not",
+                          "result._configuration.import_ == True", "not result._configuration.except_present", "not result._configuration.rule_object_anything"],
+                 properties=["C07"]))
